@@ -13,6 +13,8 @@ impl ExitGuard {
         let arc = Arc::clone(lock);
         use parking_lot::lock_api::RawRwLock as _;
         // SAFETY:we release the lock in Drop.
+        #[cfg(anydb_verif)]
+        crate::verif_locks::tap("exit", &arc, false);
         unsafe { arc.raw().lock_shared() };
         Self(arc)
     }
